@@ -192,10 +192,10 @@ func checkBase58Case(c Base58Case, o *vt.Obs) error {
 	idx := strings.IndexByte(b58Alphabet, s[pos])
 	alts := []string{
 		s[:pos] + string(b58Alphabet[(idx+c.Sub)%58]) + s[pos+1:], // substituted character
-		"1" + s,                       // one more leading zero byte
-		s[:pos] + c.Junk + s[pos:],    // character outside the alphabet
-		s[:pos] + s[pos+1:],           // dropped character
-		s + string(b58Alphabet[idx]),  // appended character
+		"1" + s,                      // one more leading zero byte
+		s[:pos] + c.Junk + s[pos:],   // character outside the alphabet
+		s[:pos] + s[pos+1:],          // dropped character
+		s + string(b58Alphabet[idx]), // appended character
 	}
 	if lz > 0 {
 		alts = append(alts, s[1:]) // one leading zero byte less
@@ -519,6 +519,15 @@ func negFraction(v *big.Int, prec int) bool {
 	return v.Sign() < 0 && new(big.Int).Abs(v).Cmp(pow10big(prec)) < 0
 }
 
+// fracOver64: the fraction digits of v at this precision, read as an integer, need more than 64 bits (shape of kfFracOver64).
+func fracOver64(v *big.Int, prec int) bool {
+	if prec < 20 {
+		return false
+	}
+	_, fp := new(big.Int).QuoRem(new(big.Int).Abs(v), pow10big(prec), new(big.Int))
+	return fp.BitLen() > 64
+}
+
 func genDecimalText(t *rapid.T, maxInt, maxFrac int) string {
 	var sb strings.Builder
 	if rapid.IntRange(0, 2).Draw(t, "neg") == 0 {
@@ -724,11 +733,7 @@ func checkDecimalCase(c DecimalCase, o *vt.Obs) error {
 	}
 	keep := new(big.Int).Set(v)
 	want := refDecString(v, c.Prec)
-	fracWide := false
-	if c.Prec >= 20 {
-		_, fp := new(big.Int).QuoRem(new(big.Int).Abs(v), pow10big(c.Prec), new(big.Int))
-		fracWide = fp.BitLen() > 64
-	}
+	fracWide := fracOver64(v, c.Prec)
 	excl := (negFraction(v, c.Prec) && vt.Known(kfNegFraction)) || (fracWide && vt.Known(kfFracOver64))
 	if excl {
 		o.Excluded()
@@ -764,7 +769,8 @@ func checkDecimalCase(c DecimalCase, o *vt.Obs) error {
 		}
 		if pok {
 			// canonical print of what was parsed parses to the same value
-			if s2 := fixedn.ToString(got, c.InPrec); !(negFraction(pv, c.InPrec) && vt.Known(kfNegFraction)) && s2 != refDecString(pv, c.InPrec) {
+			skip := (negFraction(pv, c.InPrec) && vt.Known(kfNegFraction)) || (fracOver64(pv, c.InPrec) && vt.Known(kfFracOver64))
+			if s2 := fixedn.ToString(got, c.InPrec); !skip && s2 != refDecString(pv, c.InPrec) {
 				return fmt.Errorf("ToString(FromString(%q, %d)) = %q, want %q", c.In, c.InPrec, s2, refDecString(pv, c.InPrec))
 			}
 		}
